@@ -301,7 +301,12 @@ def real_bank_oracle(ctx):
             continue
         for name, got in (("stream", st), ("fbf", fbf)):
             tol = 1e-8 if fdt is np.float64 else 2e-5
-            if got.shape != full.shape or got.dtype != full.dtype or not np.allclose(got, full, rtol=tol, atol=tol / 10):
+            # the element type of the result follows the chunks; when no chunk at all reached the computer (an empty
+            # signal cut into zero chunks) the streaming side cannot know it and the (empty) matrices are compared by shape
+            dtype_known = (len(chunks) > 0) if name == "stream" else (N > 0)
+            if not dtype_known:
+                ctx.count("dtype_unknowable_no_chunk")
+            if got.shape != full.shape or (dtype_known and got.dtype != full.dtype) or not np.allclose(got, full, rtol=tol, atol=tol / 10):
                 ctx.violation(case, dict(shape=list(full.shape)),
                               dict(shape=list(got.shape), maxdiff=float(np.max(np.abs(got - full))) if got.shape == full.shape and got.size else None),
                               "%s == compute_full (library bank, up to round-off)" % name,
